@@ -55,7 +55,10 @@ def run_tlc(module: str, cfg: str, *, env: dict[str, str] | None = None,
     """cfg: path (absolute, or relative to spec_dir) of the .cfg file."""
     _counter[0] += 1
     meta = os.path.join(scratch(), f"tlc{os.getpid()}_{_counter[0]}_{time.time_ns()}")
-    cmd = ["java", "-XX:+UseParallelGC", f"-Xmx{heap}", *java_opts, "-cp", CP,
+    # -Xss: TLC evaluates RECURSIVE operators on the Java stack; the default
+    # thread stack overflows on folds over a few dozen elements (reported as an
+    # error of TLCEval with an empty message)
+    cmd = ["java", "-XX:+UseParallelGC", f"-Xmx{heap}", "-Xss64m", *java_opts, "-cp", CP,
            "tlc2.TLC", "-metadir", meta, "-noGenerateSpecTE",
            "-workers", str(workers), "-config", cfg, *args]
     if coverage:
